@@ -9,8 +9,10 @@ import time
 
 VERIF = os.path.dirname(os.path.dirname(os.path.abspath(__file__)))
 REPO = os.environ.get("VERIF_REPO", "/repo")
-BUILD = os.path.join(VERIF, "build")
-EVIDENCE = os.path.join(VERIF, "evidence")
+# The registered commands use /repo, /verif/build and /verif/evidence.  Development runs against a scratch worktree
+# (tools/seedmatrix.py: seeded changes, several at a time) redirect all three through the environment.
+BUILD = os.environ.get("VERIF_BUILD", os.path.join(VERIF, "build"))
+EVIDENCE = os.environ.get("VERIF_EVIDENCE", os.path.join(VERIF, "evidence"))
 REPLAY = os.path.join(EVIDENCE, "replay")
 HARNESS = os.path.join(VERIF, "harness")
 FINDINGS_FILE = os.path.join(VERIF, "KNOWN_FINDINGS.json")
@@ -33,23 +35,32 @@ def log(*a):
 
 
 def build_harness(tags="verif"):
-    """(Re)build the harness binary against /repo's current working tree, hooks on."""
+    """(Re)build the harness binaries against the repository's current working tree (REPO, default /repo), hooks on."""
     os.makedirs(BUILD, exist_ok=True)
-    gosum = os.path.join(HARNESS, "go.sum")
-    shutil.copy(os.path.join(REPO, "go.sum"), gosum)
+    modargs = []
+    if os.path.abspath(REPO) == "/repo":
+        shutil.copy(os.path.join(REPO, "go.sum"), os.path.join(HARNESS, "go.sum"))
+    else:
+        # alternative repository: same module file with the replace directive pointing there
+        mod = open(os.path.join(HARNESS, "go.mod")).read().replace("=> /repo", "=> " + os.path.abspath(REPO))
+        mf = os.path.join(BUILD, "go.alt.mod")
+        with open(mf, "w") as f:
+            f.write(mod)
+        shutil.copy(os.path.join(REPO, "go.sum"), os.path.join(BUILD, "go.alt.sum"))
+        modargs = ["-modfile=" + mf]
     out = os.path.join(BUILD, "vh")
-    cmd = ["go", "build", "-tags", tags, "-o", out, "./cmd/vh"]
+    cmd = ["go", "build"] + modargs + ["-tags", tags, "-o", out, "./cmd/vh"]
     p = subprocess.run(cmd, cwd=HARNESS, env=goenv(), stdout=subprocess.PIPE, stderr=subprocess.STDOUT, text=True)
     if p.returncode != 0:
         raise Inconclusive("harness build failed:\n" + p.stdout[-4000:])
     # vhfe: the scenario runner with the emulator's HTTP front end linked in.  The files of package main in
-    # /repo/cmd/aws-lambda-rie are compiled into harness/cmd/vhfe through a build overlay, unchanged.
+    # <repo>/cmd/aws-lambda-rie are compiled into harness/cmd/vhfe through a build overlay, unchanged.
     ov = os.path.join(BUILD, "fe-overlay.json")
     fe = os.path.join(HARNESS, "cmd", "vhfe")
     with open(ov, "w") as f:
         json.dump({"Replace": {os.path.join(fe, "zz_repo_handlers.go"): os.path.join(REPO, "cmd", "aws-lambda-rie", "handlers.go"),
                                os.path.join(fe, "zz_repo_util.go"): os.path.join(REPO, "cmd", "aws-lambda-rie", "util.go")}}, f)
-    cmd = ["go", "build", "-tags", tags, "-overlay", ov, "-o", os.path.join(BUILD, "vhfe"), "./cmd/vhfe"]
+    cmd = ["go", "build"] + modargs + ["-tags", tags, "-overlay", ov, "-o", os.path.join(BUILD, "vhfe"), "./cmd/vhfe"]
     p = subprocess.run(cmd, cwd=HARNESS, env=goenv(), stdout=subprocess.PIPE, stderr=subprocess.STDOUT, text=True)
     if p.returncode != 0:
         raise Inconclusive("front-end harness build failed:\n" + p.stdout[-4000:])
